@@ -120,9 +120,9 @@ static int do_start(reproc_t *p, jv *st, jv *exp, jv *v, int idx)
   jv *av = j_get(st, "argv");
   const char **argv = calloc((size_t) (av ? av->n : 0) + 1, sizeof *argv);
   for (int i = 0; av && i < av->n; i++) argv[i] = (i == 0 && av->a[0]->s[0] == '/') ? mp(av->a[0]->s) : j_pct_decode(strdup(av->a[i]->s));
-  struct ident before[128], after[128], owned[32]; int nb = scan(before, 128);
+  static struct ident before[640], after[640]; struct ident owned[32]; int nb = scan(before, 640);
   int r = reproc_start(p, j_int(st, "noargv", 0) ? NULL : argv, op);
-  int na = scan(after, 128), nown = 0;
+  int na = scan(after, 640), nown = 0;
   for (int i = 0; i < na; i++) { int was = 0; for (int k = 0; k < nb; k++) if (before[k].fd == after[i].fd) was = 1; if (!was && nown < 32) owned[nown++] = after[i]; }
   jv *obs = j_mkobj();
   j_put(obs, "r", j_mkint(r > 0 ? 1 : r));
